@@ -485,6 +485,11 @@ class Engine:
             return a.t == z3.If(b.t, 1, 0)
         if a.k != b.k and "opaque" in (a.k, b.k) and ({a.k, b.k} & {"int", "bool"}):
             return self.as_int(a) == self.as_int(b)         # int-like unmodelled value against an integer
+        if {a.k, b.k} == {"opaque", "str"}:
+            # an unmodelled value against a string: equal iff its (uninterpreted) string content is that string
+            op_, st_ = (a, b) if a.k == "opaque" else (b, a)
+            sv_ = z3.Function("strval_" + (op_.cls or "Any"), opaque_sort(op_.cls), z3.StringSort())
+            return sv_(op_.t) == st_.t
         if a.k != b.k:
             if {a.k, b.k} <= {"int", "float"}:
                 fa, fb = self.to_float(a), self.to_float(b)
@@ -883,10 +888,31 @@ class Engine:
         return False
 
     # ---- loops
-    def st_While(self, s):
-        ordn = self.loop_ord
+    def _loop_spec(self, s):
+        """loop contracts are keyed by the loop's header text ('for x in xs', 'while cond') or by its ordinal in source order
+        within the verified function; loops of inlined helper bodies keep the order in which a path meets them"""
+        dyn = self.loop_ord
         self.loop_ord += 1
-        spec = self.c.loops.get(ordn)
+        if self.inline_depth:
+            return dyn, self.c.loops.get(dyn)
+        tab = self.__dict__.get("_static_loops")
+        if tab is None:
+            loops_ = [n_ for n_ in ast.walk(self.x.node) if isinstance(n_, (ast.For, ast.While, ast.AsyncFor))]
+            loops_.sort(key=lambda n_: (n_.lineno, n_.col_offset))
+            tab = {id(n_): i_ for i_, n_ in enumerate(loops_)}
+            self._static_loops = tab
+        ordn = tab.get(id(s), dyn)
+        if isinstance(s, ast.While):
+            head = "while " + ast.unparse(s.test)
+        else:
+            head = f"for {ast.unparse(s.target)} in {ast.unparse(s.iter)}"
+        spec = self.c.loops.get(head)
+        if spec is None:
+            spec = self.c.loops.get(ordn)
+        return ordn, spec
+
+    def st_While(self, s):
+        ordn, spec = self._loop_spec(s)
         if spec is None:
             raise OutOfReach(f"{self.c.key}: while loop #{ordn} has no invariant")
         lab = f"L{ordn}"
@@ -1068,9 +1094,7 @@ class Engine:
             if not broke:
                 self.exec_block(s.orelse)
             return
-        ordn = self.loop_ord
-        self.loop_ord += 1
-        spec = self.c.loops.get(ordn)
+        ordn, spec = self._loop_spec(s)
         if spec is None:
             raise OutOfReach(f"{self.c.key}: for loop #{ordn} (line {s.lineno}) has no invariant")
         # the iterable must not be a live container the body (or an external it calls) may modify: a copy ([:], list(), tuple()) is
@@ -1314,7 +1338,7 @@ class Engine:
                     except AttributeError:
                         pass
         obj = self.ev(n.value)
-        if obj.k == "opt" and obj.t[1].k == "obj":
+        if obj.k == "opt" and obj.t[1].k in ("obj", "opaque"):
             if self.spec_mode:
                 obj = obj.t[1]
             else:
@@ -1782,6 +1806,8 @@ class Engine:
             cc = self.reg.method_contract(cont.cls, "__contains__")
             if cc is not None:
                 return self.truth(self.contract_call(cc, cont, [item], ast.Call(func=ast.Name(id="contains"), args=[], keywords=[])))
+        if cont.k == "opaque":
+            return z3.Bool(fresh_name("member_of"))       # membership in an unmodelled container: unknown
         if cont.k == "py" and item.k in ("opaque", "str") and not (item.k == "str" and z3.is_string_value(z3.simplify(item.t))):
             return z3.Bool(fresh_name("member_of"))       # membership of a symbolic key in a live table: unknown
         if cont.k == "py" and isinstance(cont.t, (set, frozenset, tuple, list)):
@@ -2694,6 +2720,8 @@ class Engine:
             self.st.env[target_node.id] = v
         elif isinstance(target_node, ast.Attribute):
             obj = self.ev(target_node.value)
+            if obj.k != "obj":
+                raise OutOfReach("mutation through an attribute of an unmodelled object")
             self.heap_set(obj, target_node.attr, v)
         else:
             raise OutOfReach("mutation through expression")
